@@ -8,6 +8,7 @@ from tornado import gen
 
 from vlib import simgen, simhist
 from vlib.common import CaseResult, rng_for
+from vlib.sim import EPOCH
 from vlib.props.c04 import quiesce
 
 ID = 'C09'
@@ -274,11 +275,13 @@ def judge(w, h, res, rec, steps):
             res.violation('C09/spawn-event-count', 'pid %d (%s) has %d spawn events' % (pid, p.tag, c), steps=steps)
         # exit_code clause: died by itself / from outside while its watcher was active
         if p.state == 'gone' and p.cause in ('self', 'ext'):
-            if pid in rec.killed or any(snd == 'circus' and (p.exit_t is None or t >= p.exit_t - 0.01)
-                                        for (t, sg, snd) in p.signals):
+            et = p.exit_t if p.exit_t is not None else 1e18
+            if (pid in rec.killed and rec.killed[pid] + EPOCH <= et + 0.01) or \
+                    any(snd == 'circus' and et - 0.01 <= t <= et + 0.01 for (t, sg, snd) in p.signals):
                 # the daemon had announced that it is terminating this worker (kill event: a subscriber drops the
-                # pid there), or signalled it at the very moment it died / while it was a zombie: "exits by
-                # itself" and "terminated by the daemon" cannot be told apart; recorded, not judged
+                # pid there) before it died, or signalled it at the very moment it died: "exits by itself" and
+                # "terminated by the daemon" cannot be told apart; recorded, not judged.  (A worker that was already
+                # dead when the daemon first announced / signalled anything did exit by itself.)
                 res.ambiguous['self-death racing a daemon-sent termination'] += 1
                 continue
             if any(snd == 'circus' for (t, sg, snd) in p.signals):
